@@ -72,6 +72,7 @@ def response_new(ctx):
     ex.invariants += [z3.Or([EFF == i for i in EFFT.values()])]
     outs = ex.run(f, None, start=head, stop=(head,))
     ctx.absorb(ex)
+    ctx.panic_summary(f.name.split('::')[-1] + '@' + (f.file or '').split('/')[-1], outs, ex)
     # symbolic shape of the residual, for the specification of the classification
     rdisc = ex.disc_term(resid)
     val = SymValue(ex, 'resid.value', ex.opaque_field(resid, 'Concrete', 0, 'ast::value::Value'))
@@ -150,6 +151,7 @@ def reason(ctx):
     ex.stub(r'HashSet::<.*>::iter$', lambda ex, st, c, A: Agg('struct', '~iter', None, [ex.read(st, A[0].fid, A[0].place)]), 'HashSet::iter (term)')
     outs = ex.run(f, [Ref(0, ('local', 'R'))], heap={'R': resp})
     ctx.absorb(ex)
+    ctx.panic_summary(f.name.split('::')[-1] + '@' + (f.file or '').split('/')[-1], outs, ex)
     dec = resp.fields[0]
     for i, o in enumerate(outs):
         name = f'tpe::Response::reason/path{i}'
@@ -193,6 +195,7 @@ def policy_set_view(ctx):
     ex.stub(r'as Clone>::clone$', lambda ex, st, c, A: None, 'clone')
     outs = ex.run(f, None, start=head, stop=(head,))
     ctx.absorb(ex)
+    ctx.panic_summary(f.name.split('::')[-1] + '@' + (f.file or '').split('/')[-1], outs, ex)
     n = 0
     for i, o in enumerate(outs):
         name = f'tpe::Response::policy_set/path{i}'
@@ -242,6 +245,7 @@ def conversion(ctx):
     ex.stub(r'<.*Expr as From<.*Residual>>::from$', lambda ex, st, c, A: Agg('struct', '~Expr::from', None, [A[0]]), 'Expr::from(Residual) (uninterpreted)')
     outs = ex.run(f, [rp])
     ctx.absorb(ex)
+    ctx.panic_summary(f.name.split('::')[-1] + '@' + (f.file or '').split('/')[-1], outs, ex)
     for i, o in enumerate(outs):
         name = f'From<ResidualPolicy> for Policy/path{i}'
         if o.kind != 'ret':
@@ -261,9 +265,13 @@ def conversion(ctx):
                    on_sat=lambda m: views_replay(ctx, name, 'tpe/response.rs: impl From<ResidualPolicy> for Policy', 'conversion of a residual policy loses effect / id / residual', policies=P0))
 
 
+def families(ctx):
+    return [(fn.__name__, (lambda fn=fn: fn(ctx))) for fn in (response_new, reason, conversion, policy_set_view)]
+
+
 def run(ctx):
-    for fn in (response_new, reason, conversion, policy_set_view):
-        ctx.guarded(fn.__name__, lambda fn=fn: fn(ctx))
+    for name, fn in families(ctx):
+        ctx.guarded(name, fn)
     ctx.bounds += ['classification step: one loop iteration from an arbitrary state over every Residual shape (Concrete any Value / Error / Partial) and effect; decision table: all bucket-emptiness states, completions at bucket granularity']
     ctx.assumptions += ['Iterator::next, ResidualPolicy getters, HashMap/HashSet::{insert,is_empty,iter}, PolicySet::add, Policy::{effect,id,annotations_arc}, Expr::from(Residual): environment stubs / uninterpreted functions',
                         'Residual::{is_true,is_false,is_error} are executed from the MIR (not stubbed)',
